@@ -24,6 +24,28 @@ pub fn gen_case(r: &mut Rng) -> GainsCase {
             }
         }
     }
+    // a security whose yearly gains cancel exactly (+100 one year, -100 a later year): its total is
+    // zero although its years are not
+    if r.chance(20) {
+        let d0 = crate::appgen::START_JD + 50 + r.range(0, 300) as i32;
+        let mk = |day: i32, action: &'static str, sh: i64, px: i64| crate::appgen::GenRow {
+            sec: "CAN".to_string(),
+            trade_jd: day,
+            settle_jd: day,
+            action,
+            shares: Some(rust_decimal::Decimal::new(sh, 0)),
+            price: Some(rust_decimal::Decimal::new(px, 0)),
+            comm: Some(rust_decimal::Decimal::ZERO),
+            cur: "CAD",
+            rate: None,
+            split: None,
+            aff: String::new(),
+        };
+        rows.push(mk(d0, "Buy", 10, 20));
+        rows.push(mk(d0 + 40, "Sell", 5, 40));
+        rows.push(mk(d0 + 40 + 400, "Sell", 5, 0));
+        rows.sort_by_key(|x| x.settle_jd);
+    }
     GainsCase { csv: csv_text(&rows) }
 }
 
